@@ -45,10 +45,7 @@ func VerifC29_gateExclusion() {
 	g := newGate()
 	gh := &c29ghost{}
 	ctx, cancel := context.WithCancel(context.Background())
-	nthreads := 2
-	if vfTier() > 0 {
-		nthreads = 3
-	}
+	nthreads := 2 // (3 goroutines exceed the path budget since every visible operation is a scheduling point)
 	done := make(chan int, nthreads+1)
 	for t := 1; t <= nthreads; t++ {
 		id := t
@@ -58,8 +55,11 @@ func VerifC29_gateExclusion() {
 		} else {
 			op = vfChoice("op", 3)
 		}
-		// odd goroutines unlock with the condition set, even ones unset
+		// quick: odd goroutines unlock with the condition set, even ones unset; thorough: every combination
 		set := id%2 == 1
+		if vfTier() > 0 {
+			set = vfChoice("set", 2) == 1
+		}
 		vfGo(func() {
 			got := false
 			switch op {
